@@ -70,7 +70,10 @@ def _run_job(args):
                     name = f.get("clause", "bounded")
                     o = out["obligations"].setdefault(name, {"status": "proved", "paths": 0, "ms": 0, "model": None, "note": ""})
                     if o["status"] != "failed":
-                        o.update(status="failed", model=f.get("witness"), note=f.get("detail", ""), native=True)
+                        o.update(status="failed", model=f.get("witness"), note=f.get("detail", ""), native=True, all_failures=[])
+                    # every failing input is kept: a recorded known finding must only absorb the inputs it describes
+                    if len(o["all_failures"]) < 400:
+                        o["all_failures"].append({"model": f.get("witness"), "note": f.get("detail", "")})
                 for cl in getattr(br, "clauses", []):
                     out["obligations"].setdefault(cl, {"status": "passed-bounded", "paths": 0, "ms": 0, "model": None, "note": ""})
                 out["paths"] = br.cases
@@ -180,6 +183,23 @@ def run_check(prop, modname, tier="quick", seed=0, procs=None, level="proof", as
                     # no symbolic input took part: the real code was run on concrete values and the contract failed
                     ob["native"] = True
                     rep = {"confirmed": True, "observed": "concrete (native) evaluation of the contract failed: %s" % (ob.get("note") or "")}
+                if ob.get("all_failures"):
+                    # bounded job: match each failing input separately; the first input NOT covered by a known finding is the violation
+                    rest = []
+                    for fl_ in ob["all_failures"]:
+                        kf = _match_known(known, oid, dict(ob, model=fl_["model"], note=fl_["note"]))
+                        if kf is not None:
+                            if (kf, oid) not in known_hit:
+                                known_hit.append((kf, oid))
+                        else:
+                            rest.append(fl_)
+                    if not rest:
+                        n_known_obl += 1
+                        continue
+                    ob = dict(ob, model=rest[0]["model"], note=rest[0]["note"])
+                    ob.pop("all_failures", None)
+                    violations.append((oid, ob, rep, True))
+                    continue
                 kf = _match_known(known, oid, ob)
                 if kf is not None:
                     known_hit.append((kf, oid))
